@@ -16,6 +16,8 @@ import c01
 
 ENV = json.load(open(os.environ.get('VERIF_ENVELOPES') or os.path.join(vlib.VERIF, 'envelopes.json')))
 K_HONEST = ENV['honesty']['K']
+TIGHT = ENV['honesty'].get('tight', dict(K=1e4, C=1e3))
+EPS = np.finfo(float).eps
 RECS = None
 MREC = None
 
@@ -166,7 +168,8 @@ def run_prog_case(case):
     except Exception as ex:
         return ('raise', '%s: %s' % (type(ex).__name__, str(ex)[:160]))
     v = np.asarray(val).ravel()
-    return ('ok', [complex(t) for t in v], [float(t) for t in np.asarray(info.error_estimate).ravel()], probs, tame)
+    return ('ok', [complex(t) for t in v], [float(t) for t in np.asarray(info.error_estimate).ravel()], probs, tame,
+            dict(h=[float(abs(t)) for t in np.asarray(info.final_step).ravel()], maxf=seen[1]))
 
 
 def run_single_case(case):
@@ -210,7 +213,13 @@ def run_multi_case(case):
     x0 = np.array(multi.X0[:n])
     try:
         with np.errstate(all='ignore'):
-            if cls == 'Jacobian':
+            if cls == 'Nested':
+                # re-entrant use: the Jacobian of a function that itself evaluates a Gradient of the same dimension (the Hessian idiom)
+                g = multi.comp_fun(rec['comps'][0], list(x0))
+                inner = nd.Gradient(g, method='central')
+                val, info = nd.Jacobian(lambda z: inner(z), method=method, order=order, full_output=True)(x0)
+                probs = []
+            elif cls == 'Jacobian':
                 f = multi.vector_fun(rec, list(x0))
                 d = nd.Jacobian(f, method=method, order=order, full_output=True)
                 val, info = d(x0)
@@ -244,13 +253,15 @@ def run(tier, rep):
     outs = vlib.pool_map(run_prog_case, [(table, c) for c in cases], chunksize=16)
     nchk = nrec = untamed = 0
     ratios = []
+    ntight = tight_beyond = 0
+    tight_cells = {}
     for case, o in zip(cases, outs):
         pi, m, n, order, a, kind, sk, arr, cval = case
         r = uniq[pi]
         name = '%s @ c=%s a=%r%s | %s n=%d order=%d step=%s%s' % ('.'.join(r['prog']), '/'.join(map(str, r['c'])), a, ' inner point %r' % r['p'] if 'p' in r else '', m, n, order, kind, ' array' if arr else '')
         if o[0] == 'raise':
             continue                       # C01 reports raising calls
-        _, vals, est, probs, tame = o
+        _, vals, est, probs, tame, extra = o
         for p in probs[:1]:
             rep.violation('record:' + p.split(':')[0], dict(prog=r['prog'], c=r['c'], a=a, method=m, n=n, order=order, step=[kind, sk]), '%s: %s' % (name, p))
         nrec += 1
@@ -260,13 +271,27 @@ def run(tier, rep):
         exact = exprs.exact_derivative(r['jet'], n)
         sigma = exprs.local_scale(r['jet'], n, a)
         floor = ENV['derivative'][m][str(n)].get(kind, 1.0) * sigma if str(n) in ENV['derivative'][m] else sigma
+        s0j = max(abs(t) for t in exprs.jet_floats(r['jet']))
         for v, e in zip(vals, est):
             if not np.isfinite(v):
                 continue
             err = abs(v - exact)
             nchk += 1
-            if err > floor and e > 0:
+            if err > floor and e > 0 and not c01.cell_suffix(r, m, n):
                 ratios.append(((err - floor) / e, name))
+            # honesty proper (no accuracy envelope involved): beyond the ROUNDING floor of an n-th difference with the step the library
+            # settled on, eps * (size of f) / h^n, the estimate has to cover the error up to the fixed factor K_tight
+            hh = extra['h'][min(len(extra['h']) - 1, vals.index(v))] if extra['h'] else 0.0
+            if hh > 0 and not c01.cell_suffix(r, m, n):
+                rfloor = TIGHT['C'] * EPS * max(extra['maxf'], s0j) / hh ** n + 1e-12 * abs(exact)
+                ntight += 1
+                if err > rfloor:
+                    tight_beyond += 1
+                    tight_cells[(m, n, kind)] = max(tight_cells.get((m, n, kind), 0.0), (err - rfloor) / max(e, 1e-300))
+                if not err <= TIGHT['K'] * e + rfloor:
+                    rep.violation('dishonest-tight:%s:n=%d:%s' % (m, n, kind), dict(prog=r['prog'], c=r['c'], a=a, inner=r.get('p', 0.0), method=m, n=n, order=order, step=[kind, sk], got=[v.real, v.imag], exact=exact, error_estimate=e, final_step=hh, rounding_floor=rfloor),
+                                  '%s: |result - exact| = %.3g, error_estimate = %.3g, rounding floor eps*|f|/h^n = %.3g (final step %.3g): the estimate is %.3g times too small' % (name, err, e, rfloor, hh, (err - rfloor) / max(e, 1e-300)))
+                    break
             if not err <= K_HONEST * e + floor:
                 rep.violation('dishonest:%s:n=%d%s' % (m, n, c01.cell_suffix(r, m, n)), dict(prog=r['prog'], c=r['c'], a=a, inner=r.get('p', 0.0), method=m, n=n, order=order, step=[kind, sk], got=[v.real, v.imag], exact=exact, error_estimate=e, floor=floor),
                               '%s: |result - exact| = %.3g but error_estimate = %.3g (K = %g, floor %.3g)' % (name, err, e, K_HONEST, floor))
@@ -344,6 +369,9 @@ def run(tier, rep):
             for method in ['central', 'central2', 'forward', 'backward', 'complex', 'multicomplex']:
                 mcases.append((ri, 'Hessian', method, 2))
                 mcases.append((ri, 'Hessdiag', method, rnd.choice([2, 4])))
+            if rec['n'] in (2, 3):
+                for method in ['central', 'forward', 'backward']:
+                    mcases.append((ri, 'Nested', method, 2))
     mouts = vlib.pool_map(run_multi_case, [(table, c) for c in mcases], chunksize=8)
     for (ri, cls, method, order), o in zip(mcases, mouts):
         rec = MREC[ri]
@@ -362,6 +390,9 @@ def run(tier, rep):
         elif cls == 'Gradient':
             want = np.array(multi.vec(rec['grads'][0])).reshape(np.shape(val))
             floor = 10.0 * ENV['derivative'][method]['1']['default'] * sc
+        elif cls == 'Nested':
+            want = np.array([multi.vec(r) for r in rec['hess']])
+            floor = 1e-5 * sc             # the inner central Gradient is itself only accurate to about 1e-10, and the outer rule differentiates that noise
         else:
             H = np.array([multi.vec(r) for r in rec['hess']])
             want = H if cls == 'Hessian' else np.diag(H)
@@ -382,7 +413,7 @@ def run(tier, rep):
                 print('SURVEYM %s %s %.3g' % (cls, method, float((err[msk] / np.maximum(e[msk], 1e-300)).max())))
         # honesty proper: beyond a rounding-level floor the ESTIMATE has to cover the error (the accuracy envelopes of C03/C04 play no
         # part here; worst error/estimate observed beyond this floor: 0.71)
-        floor = min(floor, 1e-10 * sc)
+        floor = min(floor, 1e-10 * sc) if cls != 'Nested' else floor
         bad = err > K_HONEST * e + floor
         if bad.any():
             i = int(np.argmax(bad))
@@ -399,7 +430,7 @@ def run(tier, rep):
                samples=[dict(prog=uniq[12]['prog'], c=uniq[12]['c']), dict(pipeline=pres.records[100])], evaluations=nchk,
                distinct_nontrivial=len(ratios) + nrec // 2,
                rule='Pipeline: every (S<=26, rule length, Richardson terms, columns) exhaustively; replay: the C01 program/config sample (including cases outside the tame domain) and MC_Multi cases for Gradient/Jacobian/Hessdiag/Hessian; non-trivial = result beyond the accuracy floor (the estimate has to cover it)',
-               K=K_HONEST, K_stage=ENV['honesty']['K_stage'], stage_sequences=len(sres.records), selection_tables_replayed=nbest, anchor_honesty_checks=nanchor, anchor_beyond_rounding=anchor_beyond, anchor_worst_error_over_estimate=anchor_worst, single_estimate_calls=nsingle, single_estimate_zero_derivative=int(nzero), single_estimate_worst_ratio=single_worst, stage_worst_error_over_estimate=stage_worst, tlc=per)
+               K=K_HONEST, K_stage=ENV['honesty']['K_stage'], stage_sequences=len(sres.records), selection_tables_replayed=nbest, tight_checks=ntight, tight_beyond_rounding=tight_beyond, tight_worst_error_over_estimate=max([v_ for k_, v_ in tight_cells.items() if not ((k_[0] == 'complex' and k_[1] >= 3 and k_[2] == 'default') or (k_[0] in ('forward', 'backward') and k_[1] >= 6 and k_[2] == 'default'))] + [0.0]), anchor_honesty_checks=nanchor, anchor_beyond_rounding=anchor_beyond, anchor_worst_error_over_estimate=anchor_worst, single_estimate_calls=nsingle, single_estimate_zero_derivative=int(nzero), single_estimate_worst_ratio=single_worst, stage_worst_error_over_estimate=stage_worst, tlc=per)
     assum = ['honesty bound |err| <= K*error_estimate + floor*sigma with K and floor from envelopes.json',
              'record clauses use public information only: info tuple, d.step(...) regenerated, rule length from the object\'s LogRule']
     return cov, assum
